@@ -3,6 +3,7 @@ package validator
 import (
 	"bytes"
 	"reflect"
+	"sort"
 	"strings"
 
 	jbytes "github.com/jsightapi/jsight-schema-go-library/bytes"
@@ -142,6 +143,10 @@ func (v objectValidator) requiredKeysString() string {
 	for k := range v.requiredKeys {
 		keys = append(keys, k)
 	}
+	// In declaration order, the map holds the index of each key.
+	sort.Slice(keys, func(i, j int) bool {
+		return v.requiredKeys[keys[i]] < v.requiredKeys[keys[j]]
+	})
 	return strings.Join(keys, ", ")
 }
 
